@@ -103,11 +103,15 @@ TQuiescent ==
 
 \* misuse is reported by a panic; when it corrupted the count every later call panics as well
 Expected(c) ==
-  CASE c = "neg-on-empty"      -> <<"panic", "panic", "panic", "panic">>     \* Add(-1); Add(0); Send; Add(-1)
-    [] c = "overflow-sum"      -> <<"ok", "panic", "panic", "panic">>        \* Add(MaxInt32); Add(1); Add(0); Send
-    [] c = "pos-out-of-bounds" -> <<"panic", "ok", "ok">>                    \* Add(MaxInt32+1) panics before touching the state
-    [] c = "neg-out-of-bounds" -> <<"panic", "ok", "ok">>                    \* Add(-MaxInt32-1) likewise
-    [] c = "max-ok"            -> <<"ok", "ok", "ok">>                       \* Add(MaxInt32); Add(-MaxInt32); Add(0): in range
+  CASE c = "neg-on-empty"      -> <<"panic", "panic", "panic", "panic", "panic", "panic">>  \* Add(-1); Add(0); Send; Add(-1); Send; Add(1)
+    [] c = "overflow-sum"      -> <<"ok", "panic", "panic", "panic", "panic">>   \* Add(MaxInt32); Add(1); Add(0); Send; Send
+    [] c = "pos-out-of-bounds" -> <<"panic", "ok", "ok">>                        \* Add(MaxInt32+1) panics before touching the state
+    [] c = "neg-out-of-bounds" -> <<"panic", "ok", "ok">>                        \* Add(-MaxInt32-1) likewise
+    [] c = "max-ok"            -> <<"ok", "ok", "ok">>                           \* Add(MaxInt32); Add(-MaxInt32); Add(0): in range
+    [] c = "min-int"           -> <<"panic", "ok", "ok">>                        \* Add(math.MinInt)
+    [] c = "max-int"           -> <<"panic", "ok", "ok">>                        \* Add(math.MaxInt)
+    [] c = "min-int-plus-one"  -> <<"panic", "ok">>
+    [] c = "neg-max-on-empty"  -> <<"panic", "panic", "panic">>                  \* Add(-MaxInt32) on an empty caster underflows
 
 TMisuse ==
   /\ IsEv("misuse") /\ Consume
